@@ -231,6 +231,35 @@ async fn run_reserved(name: String) -> Result<String, String> {
     };
     let opts = ConnectOptions::builder("https://localhost/reserved").add_header(name.clone(), "overridden").build();
     let (s, c) = tokio::join!(serve, async { within(5_000, client_ep.connect(opts)).await });
+    // look-alikes of the reserved names (other letter case, surrounding space, other pseudo-header names): whatever the
+    // library does with them - refuse, carry, fail to connect - the five pseudo-headers the server sees are the URL's
+    let near = !reserved && (name.starts_with(':') || name.trim() != name || name.to_ascii_lowercase() != name);
+    if near {
+        return match c {
+            Some(Err(ConnectingError::ReservedHeader(_))) => Ok("near-reserved-refused".into()),
+            Some(Ok(_)) => {
+                let h = s.ok_or("server saw no request")?;
+                for (k, want) in [(":method", "CONNECT"), (":scheme", "https"), (":protocol", "webtransport"), (":authority", "localhost"), (":path", "/reserved")] {
+                    if h.get(k).map(|s| s.as_str()) != Some(want) {
+                        return Err(format!("additional header {name:?} changed {k} to {:?}", h.get(k)));
+                    }
+                }
+                Ok("near-reserved-harmless".into())
+            }
+            Some(Err(e)) => {
+                // the session was not established; the server application must not have seen an overridden request either
+                if let Some(h) = s {
+                    for (k, want) in [(":method", "CONNECT"), (":scheme", "https"), (":protocol", "webtransport"), (":authority", "localhost"), (":path", "/reserved")] {
+                        if h.get(k).map(|s| s.as_str()) != Some(want) {
+                            return Err(format!("additional header {name:?} changed {k} to {:?} (connect -> {e:?})", h.get(k)));
+                        }
+                    }
+                }
+                Ok("near-reserved-connect-failed".into())
+            }
+            None => Err(format!("additional header {name:?}: connect hangs")),
+        };
+    }
     match (reserved, c) {
         (true, Some(Err(ConnectingError::ReservedHeader(h)))) if h == name => Ok("reserved-refused".into()),
         (true, other) => Err(format!("reserved header {name:?}: connect -> {:?}", other.map(|r| r.map(|_| "Ok").map_err(|e| format!("{e:?}"))))),
@@ -268,7 +297,7 @@ pub fn exec(sc: &Sc) -> Outcome {
 }
 
 pub fn scenarios(tier: Tier) -> Vec<Sc> {
-    let thorough = tier == Tier::Thorough;
+    let thorough = tier >= Tier::Thorough;
     let mut out = vec![];
     for code in 0..243u32 {
         let mut s = [0u8; 5];
@@ -301,7 +330,24 @@ pub fn scenarios(tier: Tier) -> Vec<Sc> {
     for name in [":method", ":scheme", ":protocol", ":authority", ":path", "method", "x-ok", "origin", "path"] {
         out.push(Sc::Reserved { name: name.to_string() });
     }
-    out
+    if thorough {
+        for base in [":method", ":scheme", ":protocol", ":authority", ":path"] {
+            let mut variants = vec![base.to_uppercase(), format!(":{}{}", base[1..2].to_uppercase(), &base[2..]), format!("{base} "), format!(" {base}"), format!("{base}\t"), base[1..].to_uppercase()];
+            // every single-letter case flip
+            for i in 1..base.len() {
+                let mut b = base.as_bytes().to_vec();
+                b[i] = b[i].to_ascii_uppercase();
+                variants.push(String::from_utf8(b).unwrap());
+            }
+            for v in variants {
+                out.push(Sc::Reserved { name: v });
+            }
+        }
+        for name in [":status", ":Status", ":unknown", ":", "::path", "X-Upper", "Origin"] {
+            out.push(Sc::Reserved { name: name.to_string() });
+        }
+    }
+    dedup(out, |s| s.to_json().to_string())
 }
 
 pub fn run_check(args: &Args) -> i32 {
